@@ -4,6 +4,7 @@
 From Coq Require Import String Ascii.
 From AV Require Import Lib.Base Lib.V Gen.Consts.
 From AV Require Export Router.Pattern Router.RouteTree.
+From AV Require Import Router.RouteSpec.
 From AV Require Import Router.Match Router.Path Router.ResourceDef Router.Quoter.
 Open Scope N_scope.
 
@@ -113,5 +114,8 @@ Fixpoint node_texts (c : node) (acc : string) : string :=
 
 Definition run_C09 (c : case) : V :=
   match c with
-  | K a rs => VH (fold_right node_texts (ch "#" (run_reqs a rs)) (a_children a))
+  | K a rs =>
+      (* the F26 class of the table (RouteSpec.Known_F26), diffed against the harness's classifier *)
+      let k := (if existsb (bad_in false) (a_children a) then "K" else "k")%string in
+      VH (fold_right node_texts (ch "#" (ch k (run_reqs a rs))) (a_children a))
   end.
